@@ -190,6 +190,8 @@ class Transportation1dSorter {
  private:
   std::vector<int> srcOrder;
   std::vector<int> snkOrder;
+  // Sink given to each source by default (used for the sources with no supply)
+  std::vector<int> idleSink;
 };
 
 /**
